@@ -550,7 +550,8 @@ Definition spec_result (d : doc) : vres :=
   match filter (fun c => violates c d) (map fst all_checks) with [] => VOk | cs => VErr cs end.
 
 Lemma known_false d : known d = false ->
-  k6_capacity_empty d = false /\ k7_over8 d = false /\ k8_empty_demand_vectors d = false /\ k9_no_vehicles d = false.
+  k6_capacity_empty d = false /\ k7_over8 d = false /\ k8_empty_demand_vectors d = false /\ k9_no_vehicles d = false
+  /\ g2_required_breaks_of d = false.
 Proof.
   unfold known, known_table. cbn [existsb snd]. intros H.
   repeat (apply orb_false_iff in H; destruct H as [? H]). repeat split; assumption.
@@ -558,7 +559,7 @@ Qed.
 
 Lemma checks_agree d : known d = false -> forall c f, In (c, f) all_checks -> f d = Some (violates c d).
 Proof.
-  intros Hk c f Hin. destruct (known_false d Hk) as (H6 & H7 & H8 & H9).
+  intros Hk c f Hin. destruct (known_false d Hk) as (H6 & H7 & H8 & H9 & _).
   unfold all_checks, jobs_checks, vehicles_checks, routing_checks in Hin. cbn [app In] in Hin.
   repeat (destruct Hin as [Hin|Hin]; [inversion Hin; subst c f; clear Hin|]); [..|contradiction].
   - change (violates 1100 d) with (viol_1100 d). apply e1100_ok.
@@ -670,7 +671,7 @@ Section Safe.
 
   Lemma fleet_safe : fleet_panics d = false.
   Proof.
-    destruct (known_false d Hk) as (H6 & H7 & _ & H9).
+    destruct (known_false d Hk) as (H6 & H7 & _ & H9 & _).
     unfold fleet_panics. apply orb_false_iff. split; [apply orb_false_iff; split|].
     - exact H1505.
     - apply existsb_false. intros v Hin. apply existsb_false. intros s Hs.
@@ -748,6 +749,56 @@ Section Safe.
   Proof. unfold reader_panics. now rewrite fleet_safe, reserved_safe, jobs_safe, conditional_safe. Qed.
 End Safe.
 
+(* ---------- DynamicTransportCost::new on the required breaks of a shift ---------- *)
+Lemma windows2_any_pairwise {A} (f : A -> A -> bool) l : pairwise (fun a b => negb (f a b)) l = true -> windows2_any f l = false.
+Proof.
+  induction l as [|a l IH]; [reflexivity|]. rewrite pw_cons. intros H. apply andb_prop in H. destruct H as [Ha Hl].
+  destruct l as [|b r]; [reflexivity|]. change (windows2_any f (a :: b :: r)) with (f a b || windows2_any f (b :: r)).
+  rewrite (IH Hl), orb_false_r. cbn [forallb] in Ha. apply andb_prop in Ha. destruct Ha as [Ha _]. now apply negb_true_iff.
+Qed.
+Lemma windows2_any_in {A} (f : A -> A -> bool) l : windows2_any f l = true -> exists a b, In a l /\ In b l /\ f a b = true.
+Proof.
+  induction l as [|a l IH]; [discriminate|]. destruct l as [|b r]; [discriminate|].
+  change (windows2_any f (a :: b :: r)) with (f a b || windows2_any f (b :: r)). intros H. apply orb_true_iff in H. destruct H as [H|H].
+  - exists a, b. cbn. tauto.
+  - destruct (IH H) as (x & y & Hx & Hy & Hf). exists x, y. split; [now right|]. split; [now right|exact Hf].
+Qed.
+Lemma req_spans_flat bs : req_spans bs = flat_map req_kind_span bs.
+Proof.
+  induction bs as [|b r IH]; [reflexivity|]. cbn [req_spans flat_map]. rewrite IH.
+  destruct b as [w|o|e l dur|e l dur]; cbn [req_span req_kind_span app]; try reflexivity.
+  destruct (tm_val e), (tm_val l); reflexivity.
+Qed.
+Lemma spans_fail_g2 s : g2_shift s = false -> spans_fail (req_spans (olist (sh_breaks s))) = false.
+Proof.
+  unfold g2_shift, spans_fail. rewrite req_spans_flat. change (olist (sh_breaks s)) with (match sh_breaks s with Some bs => bs | None => [] end).
+  set (spans := flat_map req_kind_span _). cbv zeta. intros H. apply orb_false_iff in H. destruct H as [Hk Hp].
+  apply negb_false_iff in Hp. apply orb_false_iff. split.
+  - destruct (windows2_any (fun a b : bool * tw => negb (Bool.eqb (fst a) (fst b))) spans) eqn:E; [|reflexivity]. exfalso. destruct (windows2_any_in _ _ E) as (a & b & Ha & Hb & Hf).
+    rewrite existsb_false in Hk. specialize (Hk a Ha). cbn beta in Hk. rewrite existsb_false in Hk. specialize (Hk b Hb). cbn beta in Hk, Hf. exact (eq_true_false_abs _ Hf Hk).
+  - rewrite (pairwise_perm _ (fun a b => f_equal negb (overlap_sym a b)) _ _ (sort_perm (map snd spans))) in Hp.
+    rewrite (pairwise_ext _ (fun a b => negb (intersects a b))) in Hp by (intros; now rewrite overlap_eq).
+    now apply windows2_any_pairwise.
+Qed.
+Lemma reserved_ok_base d : g2_required_breaks_of d = false -> reserved_fails d = false.
+Proof.
+  unfold g2_required_breaks_of, reserved_fails. intros H. apply existsb_false. intros v Hv.
+  rewrite existsb_false in H. specialize (H v Hv). cbn beta in H.
+  destruct (v_ids v) as [|i0 ids0]; [reflexivity|]. cbn [nonempty andb] in H. apply existsb_false. intros s Hs.
+  rewrite existsb_false in H. now apply spans_fail_g2, H.
+Qed.
+Lemma reserved_ok_known d : known d = false -> reserved_fails d = false.
+Proof. intros Hk. destruct (known_false d Hk) as (_ & _ & _ & _ & G2). now apply reserved_ok_base. Qed.
+(* the reader of a validated base document outside the known classes goes through *)
+Lemma read_tail_ok d : known d = false -> (forall c, In c (map fst all_checks) -> violates c d = false) ->
+  (if fleet_panics d || reserved_times_panic d then RPanic
+   else if reserved_fails d then RErr [2]
+   else if jobs_panic d || conditional_panic d then RPanic else ROk) = ROk.
+Proof.
+  intros Hk Hv. destruct (known_false d Hk) as (_ & _ & _ & _ & G2).
+  now rewrite (fleet_safe d Hk Hv), (reserved_safe d Hv), (reserved_ok_base d G2), (jobs_safe d Hk Hv), (conditional_safe d Hv).
+Qed.
+
 (* ---------- the three clauses of the property, outside the known classes ---------- *)
 (* since 11fbd19 the step in front of validation cannot panic on a reduced document (no explicit speeds) *)
 Lemma approx_ok d : approx_panics d = false.
@@ -757,7 +808,7 @@ Lemma read_total_l d : known d = false -> read d <> RPanic.
 Proof.
   intros Hk. unfold read, validate_approx. rewrite (approx_ok d), (validate_spec d Hk).
   destruct (spec_result_cases d) as [[E Hv]|(cs & E & _)]; rewrite E; [|discriminate].
-  now rewrite (reader_safe d Hk Hv).
+  now rewrite (read_tail_ok d Hk Hv).
 Qed.
 
 Lemma accept_iff_l d : known d = false ->
@@ -765,7 +816,7 @@ Lemma accept_iff_l d : known d = false ->
 Proof.
   intros Hk. unfold read, validate_approx. rewrite (approx_ok d), (validate_spec d Hk).
   destruct (spec_result_cases d) as [[E Hv]|(cs & E & Hne & Hcs)]; rewrite E.
-  - rewrite (reader_safe d Hk Hv). split; [intros _ c _|reflexivity].
+  - rewrite (read_tail_ok d Hk Hv). split; [intros _ c _|reflexivity].
     destruct (in_dec Z.eq_dec c (map fst all_checks)) as [Hin|Hout]; [now apply Hv|].
     unfold violates. destruct (lookup c spec_table) as [f|] eqn:El; [|reflexivity]. exfalso. apply Hout.
     clear -El. change (map fst all_checks) with (map fst spec_table). revert El. generalize spec_table.
@@ -781,7 +832,7 @@ Lemma codes_exact_l d cs : known d = false -> read d = RErr cs ->
 Proof.
   intros Hk. unfold read, validate_approx. rewrite (approx_ok d), (validate_spec d Hk).
   destruct (spec_result_cases d) as [[E Hv]|(cs' & E & Hne & Hcs)]; rewrite E.
-  - now rewrite (reader_safe d Hk Hv).
+  - now rewrite (read_tail_ok d Hk Hv).
   - intros H. inversion H; subst cs'. clear H. split; [exact Hne|]. split.
     + unfold spec_result in E. destruct (filter _ _) eqn:Ef in E; [discriminate|]. inversion E; subst cs. rewrite <- Ef.
       apply NoDup_filter. assert (Hn : znodup (map fst all_checks) = true) by (vm_compute; reflexivity).
@@ -857,21 +908,24 @@ Qed.
 
 Lemma matrix_step_spec_l m :
   (matrix_data m = None <-> exists ec, m_errors m = Some ec /\
-        ((List.length ec < List.length (m_dist m))%nat \/ no_data 0 ec (m_travel m) (m_dist m)))
+        (List.length ec <> List.length (m_dist m) \/ List.length (m_travel m) <> List.length (m_dist m)))
   /\ (forall ec x y, m_errors m = Some ec -> matrix_data m = Some (x, y) ->
-        List.length x = List.length ec /\ List.length y = List.length ec /\ (List.length (m_dist m) <= List.length ec)%nat)
+        List.length x = List.length ec /\ List.length y = List.length ec /\ List.length (m_dist m) = List.length ec
+        /\ List.length (m_travel m) = List.length ec)
   /\ (m_errors m = None -> matrix_data m = Some (m_travel m, m_dist m)).
 Proof.
   unfold matrix_data. destruct (m_errors m) as [ec|].
-  - destruct (Nat.ltb_spec (List.length ec) (List.length (m_dist m))) as [Hlt|Hge]; split; [|split| |split].
-    + split; [intros _|reflexivity]. exists ec. split; [reflexivity|now left].
-    + discriminate.
-    + discriminate.
-    + split.
-      * intros H. exists ec. split; [reflexivity|]. right. now apply error_loop_none.
-      * intros (ec' & E & [H|H]); inversion E; subst; [lia|]. now apply error_loop_none.
-    + intros ec' x y E H. inversion E; subst. destruct (error_loop_some _ _ _ _ _ _ H) as [Hx Hy]. repeat split; assumption.
-    + discriminate.
+  - destruct (Nat.ltb_spec (List.length ec) (List.length (m_dist m))) as [Hlt|Hge].
+    + split; [|split]; [|discriminate|discriminate]. split; [intros _|reflexivity]. exists ec. split; [reflexivity|]. left. lia.
+    + destruct (Nat.eqb_spec (List.length ec) (List.length (m_dist m))) as [He|Hne]; cbn [negb orb].
+      * destruct (Nat.eqb_spec (List.length (m_travel m)) (List.length (m_dist m))) as [Ht|Hnt]; cbn [negb].
+        -- split; [|split]; [| |discriminate].
+           ++ split.
+              ** intros H. exfalso. apply error_loop_none in H. destruct H as (k & Hk & _ & Hl). lia.
+              ** intros (ec' & E & [H|H]); inversion E; subst; contradiction.
+           ++ intros ec' x y E H. inversion E; subst ec'. destruct (error_loop_some _ _ _ _ _ _ H) as [Hx Hy]. repeat split; lia.
+        -- split; [|split]; [|discriminate|discriminate]. split; [intros _|reflexivity]. exists ec. split; [reflexivity|now right].
+      * split; [|split]; [|discriminate|discriminate]. split; [intros _|reflexivity]. exists ec. split; [reflexivity|now left].
   - split; [|split].
     + split; [discriminate|]. intros (ec & E & _). discriminate.
     + intros ec x y E. discriminate.
@@ -906,6 +960,8 @@ Definition w_k8 : doc :=
   w_doc [mkJob "job1" (Some [mkTask [w_place None] (Some [])]) (Some [mkTask [w_place None] (Some [])]) None None]
         [w_vehicle [10] w_shift].
 Definition w_k9 : doc := w_doc [w_delivery None [1]] [].
+Definition w_g2 : doc :=
+  w_doc [w_delivery None [1]] [w_vehicle [10] (mkShift (wt 0) (Some (wt 0)) (Some (wt 100)) (Some [BReqExact (wt 10) (wt 20) 5; BReqOff 40 50 5]) None)].
 Definition w_k10 : doc := mkDoc [w_delivery None [1]] [w_vehicle [10] w_shift] [] None.
 
 Definition breaks_no_rule (d : doc) : Prop := forall c, In c gen_doc_validation -> violates c d = false.
@@ -943,6 +999,8 @@ Lemma k7_witness : k7_over8 w_k7 = true /\ breaks_no_rule w_k7 /\ validate w_k7 
 Proof. split; [|split; [apply breaks_no_rule_dec|split]]; vm_compute; reflexivity. Qed.
 Lemma k8_witness : k8_empty_demand_vectors w_k8 = true /\ read w_k8 = RErr [1102] /\ violates 1102 w_k8 = false.
 Proof. repeat split; vm_compute; reflexivity. Qed.
+Lemma g2_witness_base : g2_required_breaks_of w_g2 = true /\ breaks_no_rule w_g2 /\ validate w_g2 = VOk /\ read w_g2 = RErr [2].
+Proof. split; [|split; [apply breaks_no_rule_dec|split]]; vm_compute; reflexivity. Qed.
 Lemma k9_witness : k9_no_vehicles w_k9 = true /\ breaks_no_rule w_k9 /\ validate w_k9 = VOk /\ read w_k9 = RPanic.
 Proof. split; [|split; [apply breaks_no_rule_dec|split]]; vm_compute; reflexivity. Qed.
 
@@ -995,6 +1053,6 @@ Proof.
   - intros m Hm. destruct (forall2_in_l _ _ _ Hseq m Hm) as (d & Hin & Hmd). destruct (Hd d Hin) as [Hsnd Hfst].
     destruct (matrix_step_spec_l m) as (_ & Hsome & Hnone). destruct d as [x y]. cbn [fst snd] in *.
     destruct (m_errors m) as [ec|] eqn:Ee.
-    + destruct (Hsome ec x y eq_refl Hmd) as (_ & Hy & Hle). lia.
+    + destruct (Hsome ec x y eq_refl Hmd) as (_ & Hy & Hle & _). lia.
     + rewrite (Hnone eq_refl) in Hmd. inversion Hmd; subst. lia.
 Qed.
